@@ -43,6 +43,7 @@ type Config struct {
 	TTLms      int    `json:"ttl_ms"`      // cache ttl
 	Introspect string `json:"introspect"`  // "" (exact) | "e2e"
 	MaxBatch   int    `json:"max_batch"`   // 0: default factory (3000 over http.DefaultClient)
+	WriteGapUs int    `json:"write_gap_us,omitempty"` // websocket rigs: pause after every short write (a frame header) on gateway->client connections
 }
 
 func (c Config) String() string {
